@@ -2234,6 +2234,19 @@ func PutSyncedTo(ns walletdb.ReadWriteBucket, bs *BlockStamp) error {
 		return managerError(ErrDatabase, errStr, err)
 	}
 
+	// Remove any block hashes still stored above the new tip. They are left
+	// over from blocks that were rolled back, and would otherwise satisfy
+	// the previous block check above for a later block that does not
+	// connect to this tip.
+	for height := bs.Height + 1; ; height++ {
+		if _, err := fetchBlockHash(ns, height); err != nil {
+			break
+		}
+		if err := deleteBlockHash(ns, height); err != nil {
+			return managerError(ErrDatabase, errStr, err)
+		}
+	}
+
 	// Remove the stale height if any, as we should only store MaxReorgDepth
 	// block hashes at any given point.
 	staleHeight := staleHeight(bs.Height)
